@@ -244,10 +244,13 @@ func interleavings(a, b []int) [][]int {
 }
 
 func runC10(r *ev.Run) {
-	r.Rule = "the harness is the inner transport: 2-4 real sender instances (fragswarm, mbapp) tell messages of 1, 2, 3 and many fragments (exact multiples of the fragment size +-1); every captured fragment is labelled; a fresh real destination instance per schedule is fed an interleaving of the fragments of several messages and sources: enumerated (two messages of <=3 fragments: all interleavings x drop-one x duplicate-one) and random (all messages shuffled with loss and duplication), with seeded delays at the reassembly hook points; every delivered payload must equal one sent payload of the sender Src names, and a message with a never-fed fragment must not be delivered. Part-count sweep: one message per part count 1..33, fed whole (in order, reversed), with one fragment missing, and one fragment alone. Also multi-part ask responses under reordering, and a request and a reply from the same peer sharing one group id. non-trivial = fragments of >=2 messages interleaved and >=1 message completed; distinct = interleaving-shape hash"
+	r.Rule = "the harness is the inner transport: 2-4 real sender instances (fragswarm, mbapp) tell messages of 1, 2, 3 and many fragments (exact multiples of the fragment size +-1); every captured fragment is labelled; a fresh real destination instance per schedule is fed an interleaving of the fragments of several messages and sources: enumerated (two messages of <=3 fragments: all interleavings x drop-one x duplicate-one) and random (all messages shuffled with loss and duplication), with seeded delays at the reassembly hook points; every delivered payload must equal one sent payload of the sender Src names, and a message with a never-fed fragment must not be delivered. Part-count sweep: one message per part count 1..33, fed whole (in order, reversed), with one fragment missing, and one fragment alone. Largest message: MTU()-1, MTU() and MTU()+1 bytes over 1-, 2- or 4-byte parts (the part count at the limit of its header field), fed in order: delivered as told or refused. Also multi-part ask responses under reordering, and a request and a reply from the same peer sharing one group id. non-trivial = fragments of >=2 messages interleaved and >=1 message completed; distinct = interleaving-shape hash"
 	g := rng.New(r.Seed, "C10", fmt.Sprint(r.Batch))
 	idx := 0
-	for _, layer := range c10Layers() {
+	for li, layer := range c10Layers() {
+		if r.Mine(100 + li) {
+			c10LargestMessage(r, g.Fork(), "C10", layer)
+		}
 		for _, innerMTU := range []int{40, 64, 100, 1000} {
 			idx++
 			cg := g.Fork()
@@ -574,5 +577,106 @@ func c10AskReplies(r *ev.Run, g *rng.R, caseID string, innerMTU int) {
 		d.Close()
 		s.Close()
 		swg.Wait()
+	}
+}
+
+// c10LargestMessage: the largest message a layer says it carries, over an inner transport whose parts are a few bytes long (so
+// that the part count reaches the limit of its header field): payloads of MTU()-1, MTU() and MTU()+1 bytes are told, the
+// captured fragments are fed in order to a fresh destination, and whatever is delivered must be the payload told. A refusal
+// (ErrMTUExceeded) is fine. prop is the property on whose behalf the case runs (C10, C01).
+func c10LargestMessage(r *ev.Run, g *rng.R, prop string, layer c10Layer) {
+	caseID := "largest-" + layer.name
+	if !r.Want(caseID) {
+		return
+	}
+	partSize := rng.Pick(g, []int{1, 2, 4})
+	innerMTU := partSize - layer.part(0)
+	net := newWireNet(innerMTU)
+	const configured = 1 << 28
+	sender := layer.mk(net.node(1), configured)
+	defer sender.Close()
+	mtu := sender.MTU()
+	if mtu <= 0 || mtu > 1<<22 {
+		r.Inconclusive(fmt.Sprintf("%s reports MTU %d over %d-byte parts", layer.name, mtu, partSize))
+		return
+	}
+	ctx := context.Background()
+	for _, L := range []int{mtu - 1, mtu, mtu + 1} {
+		r.Eval(1)
+		p := g.Bytes(L)
+		net.take()
+		tctx, cf := context.WithTimeout(ctx, 60*time.Second)
+		err := sender.Tell(tctx, wireAddr{0}, p2p.IOVec{p})
+		cf()
+		frags := net.take()
+		if err != nil {
+			r.Count("largest_refused", 1)
+			continue
+		}
+		dnode := net.replace(0)
+		d := layer.mk(dnode, configured)
+		rctx, cancel := context.WithCancel(ctx)
+		var mu sync.Mutex
+		var dels [][]byte
+		var got atomic.Int64
+		var wg sync.WaitGroup
+		for w := 0; w < 2; w++ {
+			wg.Add(1)
+			go func() {
+				defer wg.Done()
+				for d.Receive(rctx, func(m p2p.Message[wireAddr]) {
+					mu.Lock()
+					if len(dels) < 64 {
+						dels = append(dels, append([]byte{}, m.Payload...))
+					}
+					mu.Unlock()
+					got.Add(1)
+				}) == nil {
+				}
+			}()
+		}
+		// mbapp's housekeeping goroutine makes a first pass when it starts and drops whatever is being collected at that
+		// moment (a loss, which no property here judges): let it start before the parts arrive
+		time.Sleep(20 * time.Millisecond)
+		for _, f := range frags {
+			for try := 0; !net.inject(f.Src, wireAddr{0}, f.Bytes) && try < 20000; try++ {
+				time.Sleep(100 * time.Microsecond) // inbox full: the destination is still working
+			}
+		}
+		stable, last := 0, int64(-1)
+		for i := 0; i < 20000 && stable < 6; i++ {
+			time.Sleep(500 * time.Microsecond)
+			if len(dnode.inbox) != 0 {
+				stable = 0
+				continue
+			}
+			if cur := got.Load(); cur == last {
+				stable++
+			} else {
+				last, stable = cur, 0
+			}
+		}
+		cancel()
+		d.Close()
+		wg.Wait()
+		whole := false
+		for _, dl := range dels {
+			if bytes.Equal(dl, p) {
+				whole = true
+				continue
+			}
+			sig := prop + "/invented-or-mixed/" + layer.name
+			if prop == "C01" {
+				sig = prop + "/unknown-payload/" + layer.name + ",largest-message"
+			}
+			r.Violate(sig, caseID, fmt.Sprintf("a %d-byte message (MTU() is %d) sent as %d parts of %d bytes was delivered as a %d-byte payload that is not the payload told (%d deliveries in all)", L, mtu, len(frags), partSize, len(dl), got.Load()),
+				map[string]any{"layer": layer.name, "told_len": L, "mtu": mtu, "parts": len(frags), "part_size": partSize, "delivered_len": len(dl), "deliveries": got.Load(), "head": hexShort(dl)})
+			break
+		}
+		if whole {
+			r.NonTrivial(fmt.Sprintf("%s/largest/parts=%d/len=mtu%+d", layer.name, len(frags), L-mtu))
+		} else {
+			r.Count(fmt.Sprintf("largest_not_delivered/%s/parts=%d/len=mtu%+d/deliveries=%d", layer.name, len(frags), L-mtu, got.Load()), 1)
+		}
 	}
 }
